@@ -375,7 +375,8 @@ def run_real(case, timeout_s=120, fault_step=None, scenario_obj=None, collect_op
         res["_out"] = out_buf
         with contextlib.redirect_stdout(out_buf):
             if s is None:
-                s = sc_mod.Scenario(copy.deepcopy(case["scenario"]), "")
+                import pathlib
+                s = sc_mod.Scenario(copy.deepcopy(case["scenario"]), pathlib.Path(""))
             cls = st_mod.class_from_str(case["strategy"])
             orig_cls_step = cls.step
             counter = {"n": 0}
